@@ -302,6 +302,7 @@ impl Ctx {
         coverage.insert("samples".into(), json!(self.acc.samples));
         coverage.insert("classes".into(), json!(self.acc.classes));
         coverage.insert("oracle_comparisons".into(), json!(self.acc.oracle_checks));
+        coverage.insert("thread_executions_judged".into(), json!(self.acc.extra_executions));
         coverage.insert("excluded_known".into(), json!(self.acc.excluded_known));
         coverage.insert("known_finding_hits".into(), json!(self.acc.known_hits));
         coverage.insert("cases_abandoned_other_property".into(), json!(self.acc.tainted));
